@@ -7,6 +7,7 @@ import (
 	"errors"
 	"fmt"
 	"sort"
+	"strings"
 	"sync"
 	"time"
 
@@ -84,25 +85,29 @@ type Peer interface {
 }
 
 type Sim struct {
-	T           *rapid.T
-	P           *ChainParams
-	Nodes       []*Node
-	Extra       []Peer
-	Vals        []*Validator
-	Net         NetConfig
-	Hooks       Hooks
-	q           eventHeap
-	seq         uint64
-	group       map[p2p.PeerID]int
-	seen        map[p2p.PeerID]map[[32]byte]bool
-	banned      map[p2p.PeerID]map[p2p.PeerID]bool
-	penalty     map[p2p.PeerID]map[p2p.PeerID]int
-	omu         sync.Mutex
-	outbox      []pub
-	cur         *Node
-	rpcMu       sync.Mutex
-	rpcPlan     []int // pre-drawn fault codes for the RPCs of the current node step
-	rpcNext     int
+	T        *rapid.T
+	P        *ChainParams
+	Nodes    []*Node
+	Extra    []Peer
+	Vals     []*Validator
+	Net      NetConfig
+	Hooks    Hooks
+	q        eventHeap
+	seq      uint64
+	group    map[p2p.PeerID]int
+	seen     map[p2p.PeerID]map[[32]byte]bool
+	banned   map[p2p.PeerID]map[p2p.PeerID]bool
+	penalty  map[p2p.PeerID]map[p2p.PeerID]int
+	omu      sync.Mutex
+	outbox   []pub
+	cur      *Node
+	rpcMu    sync.Mutex
+	rpcPlan  []int // pre-drawn fault codes for the RPCs of the current node step
+	rpcNext  int
+	rpcCount int
+	livelock *Livelock
+	// NodePanic is called when a step of node n panicked (the process would have died) or spun without end.
+	NodePanic   func(n *Node, what string, value interface{})
 	Steps       int
 	Stats       map[string]int
 	Trace       []string
@@ -274,11 +279,31 @@ func (s *Sim) nextRPCFault() int {
 	return f
 }
 
+// Livelock is the panic value that unwinds a node step which keeps issuing requests without end.
+type Livelock struct {
+	Procedure string
+	To        p2p.PeerID
+}
+
 // Request runs synchronously on the caller's goroutine (possibly a helper goroutine of the sync code): the remote
 // handler reads the remote node's state, which does not change during the caller's step.
 func (s *Sim) Request(ctx context.Context, from, to p2p.PeerID, procedure string, data []byte) p2p.Response {
 	if err := ctx.Err(); err != nil {
 		return p2p.VerifResponse(to, nil, err)
+	}
+	s.rpcMu.Lock()
+	s.rpcCount++
+	over := s.rpcCount > 3000
+	s.rpcMu.Unlock()
+	if over {
+		// thousands of requests inside one processing step: the caller is spinning (in production: forever, at the
+		// download rate limit). Break the loop with an error; the step is reported as a hang when it returns.
+		s.rpcMu.Lock()
+		if s.livelock == nil {
+			s.livelock = &Livelock{Procedure: procedure, To: to}
+		}
+		s.rpcMu.Unlock()
+		return p2p.VerifResponse(to, nil, errors.New("sim: request budget of the step exhausted"))
 	}
 	fault := s.nextRPCFault()
 	var respData []byte
@@ -334,6 +359,7 @@ func (s *Sim) count(k string) {
 func (s *Sim) planRPC() {
 	s.rpcMu.Lock()
 	s.rpcNext = 0
+	s.rpcCount = 0
 	s.rpcPlan = s.rpcPlan[:0]
 	s.rpcMu.Unlock()
 	if s.Net.RPCFailPct == 0 && s.Net.RPCCorruptPct == 0 {
@@ -367,8 +393,35 @@ func (s *Sim) Step(n *Node, what string, fn func()) {
 	s.cur = n
 	s.planRPC()
 	simrand.SetSource(func(k int) int { return 0 })
-	fn()
-	s.collect(n, what)
+	func() {
+		defer func() {
+			if r := recover(); r != nil {
+				if _, known := r.(simkit.KnownAbort); known {
+					panic(r)
+				}
+				if strings.HasPrefix(fmt.Sprintf("%T", r), "rapid.") || strings.HasPrefix(fmt.Sprintf("%T", r), "*rapid.") {
+					panic(r) // rapid's own control flow (failed assertion, exhausted choice sequence)
+				}
+				n.Up = false // the process is gone (panic) or hung (livelock)
+				n.Hung = true
+				s.Stats["node_panic_or_hang"]++
+				if s.NodePanic != nil {
+					s.NodePanic(n, what, r)
+				} else {
+					panic(r)
+				}
+			}
+		}()
+		fn()
+		s.collect(n, what)
+		s.rpcMu.Lock()
+		ll := s.livelock
+		s.livelock = nil
+		s.rpcMu.Unlock()
+		if ll != nil {
+			panic(*ll)
+		}
+	}()
 	s.cur = nil
 }
 
@@ -503,6 +556,9 @@ func (s *Sim) StartTicks(n *Node) {
 			n.Gen.VerifForge()
 			if n.Exec.VerifQueueLen() > before {
 				s.Stats["forged"]++
+				if s.Hooks.Forged != nil {
+					s.Hooks.Forged(n, nil)
+				}
 			}
 			if k%5 == 0 {
 				_ = n.Exec.VerifBroadcastCertificate()
